@@ -116,10 +116,12 @@ def _format_rule_line(name, check_str):
 
     Both parts are emitted as JSON values, which are valid YAML as well: a
     string containing quotes or backslashes is escaped and a list-of-lists
-    rule stays a list instead of being interpolated as text.
+    rule stays a list instead of being interpolated as text. Non-ASCII
+    characters are written as \\uXXXX escapes: NEL, LS and PS are line breaks
+    to a YAML reader even inside a quoted scalar and would otherwise be read
+    back as a space.
     """
-    return '{}: {}'.format(jsonutils.dumps(name, ensure_ascii=False),
-                           jsonutils.dumps(check_str, ensure_ascii=False))
+    return '{}: {}'.format(jsonutils.dumps(name), jsonutils.dumps(check_str))
 
 
 def _format_help_text(description):
